@@ -28,6 +28,11 @@ type Edge struct {
 	From, To *ssa.BasicBlock
 	St       State
 	Phis     []Val
+	Snap     map[ssa.Value]Val // values defined in a loop being left, as of this edge
+}
+
+type excEdge struct {
+	St State
 }
 
 type RetEdge struct {
@@ -43,6 +48,7 @@ type Loop struct {
 	Parent  *Loop
 	ct      *LoopContract
 	keyName string // range loops: name of the key variable
+	liveOut []ssa.Value
 }
 
 type deferred struct {
@@ -78,6 +84,12 @@ type FnTr struct {
 	curInstr ssa.Instruction
 	fnFrame  []cellRange // declared modifies of the top-level function, evaluated at entry
 	storeChecks bool     // recovering function with a frame: every write is checked against it
+	refuteWrap bool      // bounded search with exact wrap-around arithmetic
+	copyBound  int64
+	refute   bool        // counterexample search: bounded unrolling, inlining, no quantifiers
+	unrollK  int
+	excEdges []excEdge   // refute mode: precise exceptional edges
+	inlining map[*ssa.Function]bool
 }
 
 // writeCheck: in a recovering function the frame must hold at every possible panic point,
@@ -255,12 +267,40 @@ func (tr *FnTr) analyzeLoops() {
 
 func reachableWithoutBackEdge(a, b *ssa.BasicBlock) bool { return true }
 
+func (tr *FnTr) computeLiveOut() {
+	for _, l := range tr.loops {
+		seen := map[ssa.Value]bool{}
+		for b := range l.Body {
+			for _, in := range b.Instrs {
+				v, ok := in.(ssa.Value)
+				if !ok {
+					continue
+				}
+				refs := v.Referrers()
+				if refs == nil {
+					continue
+				}
+				for _, r := range *refs {
+					if _, isDbg := r.(*ssa.DebugRef); isDbg {
+						continue
+					}
+					if rb := r.Block(); rb != nil && !l.Body[rb] && !seen[v] {
+						seen[v] = true
+						l.liveOut = append(l.liveOut, v)
+					}
+				}
+			}
+		}
+	}
+}
+
 // ---------- driving ----------
 
 // run translates the whole function body from the given entry state.
 func (tr *FnTr) run(st State) {
 	tr.env0()
 	tr.analyzeLoops()
+	tr.computeLiveOut()
 	tr.computePrivate()
 	tr.in = map[*ssa.BasicBlock][]*Edge{}
 	if len(tr.fn.Blocks) == 0 {
@@ -408,6 +448,26 @@ func (tr *FnTr) mergeEdges(b *ssa.BasicBlock, edges []*Edge) (State, []Val, bool
 			phis = np
 		}
 	}
+	// values leaving loops: merge the per-edge snapshots
+	if last.Snap != nil {
+		for v, lv := range last.Snap {
+			merged := lv
+			ok := true
+			for i := n - 2; i >= 0; i-- {
+				x, has := live[i].Snap[v]
+				if !has {
+					ok = false
+					break
+				}
+				merged = tr.iteVal(live[i].St.Reach, x, merged)
+			}
+			if ok && n > 1 {
+				tr.env[v] = tr.defVal(tr.vname(v)+"_lo", merged)
+			} else if ok {
+				tr.env[v] = lv
+			}
+		}
+	}
 	tag := fmt.Sprintf("b%d", b.Index)
 	st.Reach = tr.vc.Def("reach_"+tag, Or(rs...))
 	st.Mem = tr.vc.Def("mem_"+tag, st.Mem)
@@ -512,6 +572,19 @@ func (tr *FnTr) addEdge(b, s *ssa.BasicBlock, reach *Term) {
 		}
 		e.Phis = append(e.Phis, tr.val(phi.Edges[idx]))
 	}
+	for l := tr.loopOf[b]; l != nil; l = l.Parent {
+		if l.Body[s] {
+			break
+		}
+		for _, v := range l.liveOut {
+			if x, ok := tr.env[v]; ok {
+				if e.Snap == nil {
+					e.Snap = map[ssa.Value]Val{}
+				}
+				e.Snap[v] = x
+			}
+		}
+	}
 	tr.in[s] = append(tr.in[s], e)
 }
 
@@ -527,6 +600,11 @@ func (tr *FnTr) check(kind string, cond *Term, p token.Pos) {
 // panicEdge: the current instruction panics unless ok holds.
 func (tr *FnTr) panicEdge(kind string, ok *Term, p token.Pos) {
 	top := tr.top
+	if top.refute && top.recovering && !tr.excMode {
+		if r := And(tr.st.Reach, Not(ok)); !r.IsFalse() {
+			top.excEdges = append(top.excEdges, excEdge{St: State{Reach: r, Mem: tr.st.Mem, Alloc: tr.st.Alloc}})
+		}
+	}
 	if top.recovering || tr.excMode || (top.ct != nil && top.ct.NoPanicCheck) {
 		// control transfers to the deferred recover: the exceptional exit is checked
 		// separately against a havocked state. Nothing to prove here.
@@ -557,8 +635,12 @@ func (tr *FnTr) procLoop(l *Loop) {
 			break
 		}
 	}
+	if tr.top.refute {
+		tr.unrollLoop(l, est, ephis, phiInstrs, tr.top.unrollK, true)
+		return
+	}
 	if l.ct != nil && l.ct.Unroll {
-		tr.unrollLoop(l, est, ephis, phiInstrs)
+		tr.unrollLoop(l, est, ephis, phiInstrs, 20000, false)
 		return
 	}
 	lname := fmt.Sprintf("loop%d", l.Ordinal)
@@ -582,6 +664,7 @@ func (tr *FnTr) procLoop(l *Loop) {
 	}
 	for i, c := range invs {
 		ctx := tr.specCtxAt(est, entryPhi, h)
+		ctx.entryCtx = tr.specCtxAt(est, entryPhi, h)
 		g := ctx.goal(c.E)
 		tr.vc.Oblige(tr.prefix+"inv.entry."+lname, labelOr(c.Label, i+1), Implies(est.Reach, g), c.Pos)
 	}
@@ -611,6 +694,7 @@ func (tr *FnTr) procLoop(l *Loop) {
 	hdrPhi := fr.phiHdr
 	for _, c := range invs {
 		ctx := tr.specCtxAt(hst, hdrPhi, h)
+		ctx.entryCtx = tr.specCtxAt(est, entryPhi, h)
 		tr.vc.Assume(Implies(hst.Reach, ctx.fact(c.E)))
 	}
 	for _, a := range autoInv {
@@ -649,6 +733,7 @@ func (tr *FnTr) procLoop(l *Loop) {
 		}
 		for i, c := range invs {
 			ctx := tr.specCtxAt(e.St, bphi, h)
+			ctx.entryCtx = tr.specCtxAt(est, entryPhi, h)
 			g := ctx.goal(c.E)
 			tr.vc.Oblige(tr.prefix+"inv.step."+lname, labelOr(c.Label, i+1)+suffix, Implies(e.St.Reach, g), c.Pos)
 		}
@@ -797,6 +882,10 @@ func typingFacts(v Val, alloc *Term) *Term {
 			}
 		case LOff:
 			cs = append(cs, Le(Int(0), t))
+			if i > 0 && lay.Leaves[i-1].K == LObj && !lay.Leaves[i-1].Str && (i+1 >= len(lay.Leaves) || lay.Leaves[i+1].K != LLen) {
+				// canonical nil pointer
+				cs = append(cs, Implies(Eq(v.L[i-1], Int(0)), Eq(t, Int(0))))
+			}
 		case LLen:
 			cs = append(cs, Le(Int(0), t), Le(t, maxLen))
 			if i+1 < len(lay.Leaves) && lay.Leaves[i+1].K == LCap {
@@ -851,7 +940,7 @@ func blockOf(v ssa.Value) *ssa.BasicBlock {
 }
 
 // unrollLoop executes a loop whose exit test folds to a constant in every iteration.
-func (tr *FnTr) unrollLoop(l *Loop, est State, ephis []Val, phis []*ssa.Phi) {
+func (tr *FnTr) unrollLoop(l *Loop, est State, ephis []Val, phis []*ssa.Phi, maxIter int, cut bool) {
 	h := l.Header
 	st := est
 	cur := ephis
@@ -861,9 +950,11 @@ func (tr *FnTr) unrollLoop(l *Loop, est State, ephis []Val, phis []*ssa.Phi) {
 			body[b] = true
 		}
 	}
-	const maxIter = 20000
 	for it := 0; ; it++ {
 		if it > maxIter {
+			if cut {
+				return // longer executions are outside the bounded search
+			}
 			tr.unsupported("loop %d of %s: unroll exceeds %d iterations", l.Ordinal, tr.fn, maxIter)
 		}
 		tr.st = st
